@@ -1,1 +1,61 @@
-fn main() {}
+//! W1c — plain NTP client-source world (DESIGN.md §4 "W1", client half).
+//!
+//! 1-3 client nodes, each with 1-3 real `ntp_proto::NtpSource` state machines
+//! (behind the real `TwoWaySourceControllerWrapper` with a recording inner
+//! controller) talking over `simkit::net::SimNet` to honest servers (the real
+//! `ntp_proto::Server`), flaky servers and a byzantine responder that builds
+//! answers by hand, plus an on-path adversary replaying old answers.
+//! Decides C05, C08, C09, C10, C11, C12.
+
+mod client;
+mod model;
+mod rec;
+mod server;
+mod wire;
+mod world;
+
+use simkit::batch::{cli_main, Level, Property, WorldDef};
+
+fn main() {
+    let p = |id, rule| Property {
+        id,
+        level: Level::Exploration,
+        quick_runs: 60_000,
+        thorough_runs: 3_000_000,
+        quick_wall_s: 75.0,
+        thorough_wall_s: 900.0,
+        event_cap: 12_000,
+        enumerate: None,
+        rule,
+        assumptions: &[
+            "ntpd's SourceTask::run glue (send-timestamp bookkeeping that defines T1, <48-byte drop, action dispatch) is mirrored in the world, not run",
+            "client and server clocks are SimClock instances behind the NtpClock trait; T1..T4 are read from them at the simulated send/delivery instants",
+            "the source controller behind the real TwoWaySourceControllerWrapper is a recording shim (optionally delegating to the real Kalman source filter); the clock controller loop is not run",
+            "plain (non-NTS) sources only; NTS sources are decided in world w1x",
+        ],
+    };
+    cli_main(WorldDef {
+        name: "w1c",
+        run: world::run,
+        properties: vec![
+            p("C05", "one run = a swarm-configured history of polls between 1-6 real sources and honest/flaky/byzantine servers with era-straddling clocks; every InternalMeasurement handed to the inner controller is recomputed in i128 from the four ground-truth timestamps"),
+            p("C08", "as C05; every delivered datagram is classified by an independent 48-byte header reader against the model of the pending request; a measurement implies a fresh matching usable answer, at most one per request; non-matching answers change nothing"),
+            p("C09", "as C05 with a byzantine responder sending matching RATE/DENY/RSTR/NTSN/unknown kisses between normal answers and silence; poll floor after RATE, deny memory and demobilisation, no effect of NTSN/unknown"),
+            p("C10", "as C05 with random PollIntervalLimits (0<=min<=initial<=max<=17), scripted or real filter poll desire, RATE kisses and NTPv5 poll requests; poll field and SetTimer of every poll checked"),
+            p("C11", "as C05; an 8-bit shift-register model fed with polls and accepted answers predicts the exact action list of every handle_timer call and observe().unanswered_polls"),
+            p("C12", "as C05 with sources in V4 / V5 / auto-upgrade mode against v4-only, v5-capable, legacy and byzantine servers; the four-state machine of the statement predicts version and upgrade marker of every poll; answers of an unexpected version change nothing"),
+        ],
+        real_components: &[
+            "ntp_proto::NtpSource::{handle_timer,handle_incoming} (plain sources, all protocol-version modes)",
+            "ntp_proto::TwoWaySourceControllerWrapper::handle_measurement (offset/delay arithmetic)",
+            "ntp_proto::Server::handle (honest and flaky servers; v4-only and v5-capable)",
+            "ntp_proto packet codec (client requests, server answers)",
+            "ntp_proto Kalman source filter (desired poll interval) in a share of the runs",
+        ],
+        stub_components: &[
+            "ntpd SourceTask::run glue -> ~40 mirrored lines (send timestamp, <48 byte drop, action dispatch)",
+            "UDP sockets -> simkit::net::SimNet; kernel clocks -> simntp::SimClock",
+            "clock controller loop (TimeSyncControllerWrapper::run) not run; inner source controller is a recorder",
+        ],
+    })
+}
